@@ -4,7 +4,7 @@ From Http Require Import Model.Bytes Model.Utf8 Model.Num Model.Headers Model.Re
      Model.Chunked Model.Response
      Spec.HeaderGrammar Spec.ChunkedGrammar Spec.RequestGrammar Spec.ResponseGrammar
      Proofs.BytesLemmas Proofs.HeaderAlgebra Proofs.HeaderGrammarProofs Proofs.TrimLemmas
-     Proofs.ReqGrammar Proofs.RespGrammar Proofs.NumShow Proofs.Utf8Lemmas Proofs.RoundTrip.
+     Proofs.ReqGrammar Proofs.RespGrammar Proofs.NumShow Proofs.Utf8Lemmas Proofs.Utf8Split Proofs.RoundTrip.
 
 (* parsed header fields are well-formed values: legal name, legal trimmed value *)
 Definition hdr_wf0 (h : header) : Prop :=
@@ -61,16 +61,20 @@ Section Req.
 
   Theorem accepted_request_is_wf cfg x st c u :
     P cfg req_init x = (st, Complete c) -> r_target st = Some u ->
-    uri_ok uri uri_parse uri_show u -> forallb is_graphic (r_method st) = true ->
+    uri_ok uri uri_parse uri_show u ->
     refits cfg (value_of uri st u) ->
     WfRequest uri uri_parse uri_show cfg (value_of uri st u).
   Proof.
-    intros HP Ht Hu Hg [Hrl [Hfit Hmax]].
+    intros HP Ht Hu [Hrl [Hfit Hmax]].
     destruct (req_parse_sound uri uri_parse cfg x st c HP) as [u' [Ht' HI]].
     rewrite Ht in Ht'. inversion Ht'; subst u'. clear Ht'.
     destruct HI as [tstr [fs [Hm [Hline [[Hfs Hl2] [Hhs Hbody]]]]]].
     cbn [v_method v_target v_headers v_body value_of] in *.
-    destruct Hline as [Hmne _].
+    destruct Hline as [Hmne [Hmsp [_ [_ [_ [Hil [Hutf _]]]]]]].
+    assert (Hg : method_ok (r_method st)).
+    { split; [exact Hmsp|]. unfold request_line in Hil, Hutf. cbn [app] in Hil, Hutf. split.
+      - eapply (utf8_valid_split (r_method st) SP); [reflexivity|exact Hutf].
+      - apply (proj1 (is_line_iff _)) in Hil. eapply find_crlf_prefix_none. exact Hil. }
     unfold WfRequest. cbn [v_method v_target v_headers v_body value_of].
     split; [exact Hmne|]. split; [exact Hg|]. split; [exact Hu|]. split; [exact Hrl|].
     split; [apply wf0_fit; [rewrite Hhs; eapply parsed_fields_wf; exact Hfs|exact Hfit]|].
@@ -85,15 +89,15 @@ Section Req.
   (* C11 for requests *)
   Theorem request_reserialise cfg x st c u :
     P cfg req_init x = (st, Complete c) -> r_target st = Some u ->
-    uri_ok uri uri_parse uri_show u -> forallb is_graphic (r_method st) = true ->
+    uri_ok uri uri_parse uri_show u ->
     refits cfg (value_of uri st u) ->
     exists g st2,
       generate_request uri uri_show cfg (value_of uri st u) = Some g /\
       P cfg req_init g = (st2, Complete (length g)) /\
       value_of uri st2 u = value_of uri st u /\ r_target st2 = Some u.
   Proof.
-    intros HP Ht Hu Hg Hfit.
-    pose proof (accepted_request_is_wf cfg x st c u HP Ht Hu Hg Hfit) as Hwf.
+    intros HP Ht Hu Hfit.
+    pose proof (accepted_request_is_wf cfg x st c u HP Ht Hu Hfit) as Hwf.
     destruct (request_roundtrip uri uri_parse uri_show cfg _ Hwf) as [g [st2 [H1 [H2 [H3 [H4 _]]]]]].
     exists g, st2. repeat split; assumption.
   Qed.
